@@ -15,6 +15,9 @@ ASSUMPTIONS = ['DECLINED: slot accounting (no orphan / double use / leak) over h
 TRUSTED = ['rustc MIR construction (nightly)', 'pdb-facts driver', 'rule engine /verif/rules', 'anchor tables in props/C14.py']
 
 
+SLOT_WRITERS = {'table::ValueTable::next_free', 'table::ValueTable::claim_entries', 'table::ValueTable::clear_slot', 'table::ValueTable::refresh_metadata'}
+
+
 def run(ctx):
     shared.borrow(ctx, 'C11', '3x2 ', '9x2 later-writes-of-the-root-wait-for-its-pending-removal')   # F49 also breaks the slot accounting / the content of the re-inserted tree
     shared.walk_frees_children_of_the_root_found(ctx, '9w')   # F69
@@ -25,15 +28,19 @@ def run(ctx):
     for b in F.bodies.values():
         for bi, t in b.all_calls():
             if call_matches(t, lib.ATOMIC_STORE + lib.ATOMIC_RMW) and ({'.ValueTable.filled', '.ValueTable.last_removed'} & lib.receiver_fields(b, t, 0)):
-                writers.add(lib.strip_closures(b.path))
-    allowed = {'table::ValueTable::next_free', 'table::ValueTable::claim_entries', 'table::ValueTable::clear_slot', 'table::ValueTable::refresh_metadata'}
+                writers.add(lib.entry_point_of(F, b.path, SLOT_WRITERS))     # (a private helper of a writer counts as the writer)
+    allowed = SLOT_WRITERS
     ctx.ob('1a slot-counter-writers', 'K4-confinement', ','.join(sorted(writers)), 'filled / last_removed are stored only by next_free, claim_entries, clear_slot (and refresh_metadata, which reloads them from disk)',
            writers <= allowed and len(writers) >= 3, str(sorted(writers)))
     for fn in sorted(writers - {'table::ValueTable::refresh_metadata'}):
         i = 0
-        for b in lib.bodies_of(F, fn):
+        for b in lib.family(F, fn):
             stores = [bi for bi, t in b.calls() if call_matches(t, lib.ATOMIC_STORE) and ({'.ValueTable.filled', '.ValueTable.last_removed'} & lib.receiver_fields(b, t, 0))]
             src_body = b
+            if stores and '{closure' not in b.path and b.path != fn and F.body(fn) is not None and F.body(fn).call_sites(b.path):
+                # the stores are made by a private helper of the function: the header is marked after the call of the helper
+                src_body = F.body(fn)
+                stores = src_body.call_sites(b.path)
             if stores and '{closure' in b.path:
                 # the stores are made by a closure (iterator chain): the header is marked after the call the closure is handed to
                 uses = lib.closure_use_sites(F, b)
